@@ -624,3 +624,38 @@ Example C04_ex_byte_level_run_old :
                  [] [] (Sc.opened bx_h) =
   Some (BR.BFinish, [1; 1; 1]%Z, bx_file, [Served [1]%nat 1]).
 Proof. vm_compute. reflexivity. Qed.
+
+(** Header fetch, state part (closes the last gap of the link): [fetch_header] - header region
+    := B's header; when the header is shorter than the probe, [write_prefix] puts B's first
+    bytes over the first extents - is the abstraction of the byte-level header fetch (B's
+    first max(probe, header) bytes, clamped to B's length, written at offset 0), for every
+    target file and flag list. *)
+From ZV Require Dl.UpdateByteFetch.
+Theorem C04_link_fetch_header :
+  forall (H : N -> bytes -> bytes) (h : Hd.header) (fb : bytes),
+  Read.ScanProofs.scan_wf h fb ->
+  len fb = Sc.data_offset h + Hd.data_total (Hd.h_chunks h) ->
+  forall (tf : bytes) (fl : list Z),
+  let T1 := fetch_header (L.abs_new h fb) (L.abs h fb tf fl) in
+  let A1 := L.abs h fb (Wr.file_write tf 0 (BF.fetch_bytes h fb)) fl in
+  t_hdr A1 = t_hdr T1 /\ t_slots A1 = t_slots T1.
+Proof. exact Dl.UpdateByteFetch.link_fetch_header. Qed.
+Print Assumptions C04_link_fetch_header.
+
+(** non-vacuity: a file whose header (81 bytes) is shorter than the probe: the fetch brings the
+    first 8 data bytes; chunk "abcdefghij" of a garbage target gets its first 8 bytes *)
+Definition sx_c1 : bytes := [97; 98; 99; 100; 101; 102; 103; 104; 105; 106].
+Definition sx_index : bytes := [131; 130] ++ bx_z16 ++ [128; 128] ++ bx_d sx_c1 ++ [138; 138].
+Definition sx_hdr : bytes := bx_d sx_c1 ++ [128; 128; 166] ++ sx_index ++ [128].
+Definition sx_file : bytes :=
+  Hd.magic_zck ++ [131; 186] ++ bx_d (Hd.magic_zck ++ [131; 186] ++ sx_hdr) ++ sx_hdr ++ sx_c1.
+Definition sx_h : Hd.header :=
+  Hd.mkHeader false 3 23 58 (bx_d (Hd.magic_zck ++ [131; 186] ++ sx_hdr)) (bx_d sx_c1) 0 0 3 2
+    [Hd.mkChunk bx_z16 None 0 0 0; Hd.mkChunk (bx_d sx_c1) None 10 10 0] 19 38.
+Example C04_ex_link_fetch_header :
+  PI.parse_impl Format.ParseExamples.toyH PI.no_pins sx_file = PI.POk sx_h /\
+  map s_cur (t_slots (fetch_header (L.abs_new sx_h sx_file) (L.abs sx_h sx_file (repeat 0 95%nat) []))) =
+    [[]; [97; 98; 99; 100; 101; 102; 103; 104; 0; 0]] /\
+  map s_cur (t_slots (L.abs sx_h sx_file (Wr.file_write (repeat 0 95%nat) 0 (BF.fetch_bytes sx_h sx_file)) [])) =
+    [[]; [97; 98; 99; 100; 101; 102; 103; 104; 0; 0]].
+Proof. vm_compute. repeat split; reflexivity. Qed.
